@@ -347,14 +347,18 @@ func (r *runningRoutine) execute(
 				} else if r.r.routine == r {
 					dur := r.r.retryBo.NextBackOff()
 					if dur != backoff.Stop {
-						r.deferRetry = time.AfterFunc(dur, func() {
+						var retryTimer *time.Timer
+						retryTimer = time.AfterFunc(dur, func() {
 							r.r.bcast.HoldLock(func(broadcast func(), getWaitCh func() <-chan struct{}) {
-								if r.r.ctx != nil && r.r.routine == r && r.exited {
+								// ignore the timer if it was stopped or replaced after it fired
+								if r.deferRetry == retryTimer && r.r.ctx != nil && r.r.routine == r && r.exited {
+									r.deferRetry = nil
 									r.start(r.r.ctx, r.exitedCh, true)
 								}
 								broadcast()
 							})
 						})
+						r.deferRetry = retryTimer
 					}
 				}
 			}
